@@ -188,11 +188,19 @@ type vfRefSess struct {
 	RefSide  wire.Side
 	Enc      *refobfs4.Encoder // reference -> real endpoint
 	Dec      *refobfs4.Decoder // real endpoint -> reference
+
+	HeldSeedFrame []byte
 }
 
 // vfRefSession performs a complete handshake between the real client (or
 // server) and the reference peer, everything released whole.
 func vfRefSession(br vfBridge, ent func(int) []byte, realIsClient, legacy bool) (*vfRefSess, error) {
+	return vfRefSessionOpt(br, ent, realIsClient, legacy, false)
+}
+
+// vfRefSessionOpt: with withholdSeed the reference server sends only the
+// response; the seed frame is left in HeldSeedFrame for the caller to inject.
+func vfRefSessionOpt(br vfBridge, ent func(int) []byte, realIsClient, legacy, withholdSeed bool) (*vfRefSess, error) {
 	n := wire.New()
 	s := &vfRefSess{N: n}
 	if realIsClient {
@@ -211,7 +219,13 @@ func vfRefSession(br vfBridge, ent func(int) []byte, realIsClient, legacy bool) 
 		}
 		c2s, s2c := refobfs4.Keys(sv.KeySeed)
 		s.Enc, s.Dec = refobfs4.NewEncoder(s2c), refobfs4.NewDecoder(c2s)
-		n.Inject(wire.B, append(sv.Response(), s.Enc.Frame(refobfs4.PktSeed, br.Seed, 0)...))
+		seedFrame := s.Enc.Frame(refobfs4.PktSeed, br.Seed, 0)
+		if withholdSeed {
+			s.HeldSeedFrame = seedFrame
+			n.Inject(wire.B, sv.Response())
+		} else {
+			n.Inject(wire.B, append(sv.Response(), seedFrame...))
+		}
 		n.ReleaseAll(wire.B)
 		if err := n.WaitQuiescent(wire.A); err != nil {
 			return s, err
